@@ -51,6 +51,7 @@ pub fn generate(rng: &mut Rng, thorough: bool) -> Vec<String> {
         v.push(format!("pdt_with_time {y} {m} {d} {t1} {t2}"));
         v.push(format!("pdt_info {y} {m} {d} {t1}"));
         v.push(format!("pd_to_pdt {y} {m} {d} {}", if rng.chance(1, 3) { "-".to_string() } else { t2.clone() }));
+        v.push(format!("pdt_from_dat {y} {m} {d} {t2}"));
         v.push(format!("pdt_from_pd {y} {m} {d}"));
         v.push(format!("pd_from_pdt {y} {m} {d} {t1}"));
         v.push(format!("ym_info {} {m}", *rng.pick(&[y, 9999, 10000, 0, -1, 999, 1000, -271821, 275760, 2024, 1900])));
@@ -113,6 +114,10 @@ pub fn eval(t: &[&str]) -> Option<String> {
                 let time = if t[4] == "-" { None } else { Some(time6(&t[4..10])?) };
                 d.to_plain_date_time(time)
             }),
+            |p| fmt_dt(&p),
+        ),
+        "pdt_from_dat" => render(
+            PlainDate::try_new(i(t[1]) as i32, i(t[2]) as u8, i(t[3]) as u8, iso).and_then(|d| PlainDateTime::from_date_and_time(d, time6(&t[4..10])?)),
             |p| fmt_dt(&p),
         ),
         "pdt_from_pd" => render(PlainDate::try_new(i(t[1]) as i32, i(t[2]) as u8, i(t[3]) as u8, iso), |d| {
